@@ -110,7 +110,10 @@ def monitor (script : List Cmd) (iters : List Iter) : Option String :=
           if mixedCaseInst then some s!"duel-two-daemons-announce-one-instance-name-with-upper-case-letters name={hexOfBytes a.2.1}"
           else some s!"duel-two-daemons-announce-one-instance-name name={hexOfBytes a.2.1}"
         | _, some a, _ =>
+          -- a host name nobody registered: two losers chose the same new name (known finding D42)
+          let renamedHost := !(hostSpellings.any fun h => lower h == a.2.2.1)
           if caseVariantHosts then some s!"duel-host-name-in-two-letter-cases-held-by-two-daemons host={hexOfBytes a.2.2.1}"
+          else if renamedHost then some s!"duel-renamed-host-name-held-by-two-daemons host={hexOfBytes a.2.2.1}"
           else some s!"duel-host-name-held-by-two-daemons-with-different-addresses host={hexOfBytes a.2.2.1}"
         | _, _, some f => some s!"duel-loser-name-not-counted-up d={f.1} name={hexOfBytes f.2.1}"
         | _, _, _ => none
